@@ -421,3 +421,8 @@ mod tests {
         );
     }
 }
+
+#[cfg(kani)]
+pub(crate) mod verif {
+    include!(concat!(env!("LIBP2P_VERIF"), "/hooks/relay_copy_future.rs"));
+}
